@@ -105,7 +105,10 @@ def run(ctx):
                 'operator sets, single/multi objective, keep_n_best, sizes, limits, partially failing objectives, seeds); '
                 'one case = one exported history; distinct = distinct configuration; non-trivial = at least 2 unlabelled '
                 '(evolved) generations and at least one individual with parents')
-    ctx.trusted_extra = ['the evolve step is an oracle: the model replays the recorded sequence of generations',
+    ctx.trusted_extra = ['the evolve step is an oracle in Evo/History.v: the model replays the recorded sequence of generations; '
+                         'Evo/Compose.v models the loop body itself (operators of C16 / C08 instantiated, evaluator / one '
+                         'reproduction attempt / extension / regularisation / diversity refill as oracles with contracts) and '
+                         'step_admits checks every observed transition against it',
                          'lineage is exported by following parent_operator links of the real Individual objects']
     cases, meta = [], []
     for cfg in configs(ctx):
@@ -139,6 +142,9 @@ def run(ctx):
             ctx.disagree('runs', summarise(rec), 'model replay of the generation sequence differs in numbers or native generations')
     for rec in meta[:3]:
         ctx.sample(summarise(rec))
+    # every transition of every run must be a step the composed loop model (Evo/Compose.v) can make
+    import c06_compose
+    c06_compose.run_in_check(ctx, meta)
 
 
 def replay(ctx, payload):
@@ -154,3 +160,5 @@ def replay(ctx, payload):
         ctx.violate('replay', summarise(rec), 'exported history is not well-formed')
     if not res[0][0]:
         ctx.disagree('replay', summarise(rec), 'model replay differs')
+    import c06_compose
+    c06_compose.run_in_check(ctx, [rec], group='replay_compose')
